@@ -370,6 +370,65 @@ def run(ctx):
                 res.sample({"scenario": kind, "operations_per_process": [n0, n1], "schedules": schedules[:4]})
         finally:
             shutil.rmtree(tmp, ignore_errors=True)
+    # keepers whose results for one key differ in length (a result that depends on the worker: a time stamp, a host name): the
+    # early keeper returns, the late one - it found the store cold - is stepped one operation at a time; every load in between
+    # returns the complete result of one of the two, never something else
+    tmp = tempfile.mkdtemp(prefix="ddsverif_c07v_")
+    try:
+        ws = os.path.join(tmp, "ws")
+        os.makedirs(ws)
+        vm = "c7v_%d" % os.getpid()
+        with open(os.path.join(ws, vm + ".py"), "w") as fh:
+            fh.write("import dds\nimport os\n\ndef g():\n    return 'v' * (3 + 5 * int(os.environ.get('DDSVERIF_WORKER', '0')))\n\n"
+                     "def f0():\n    return dds.keep('/w/p', g)\n")
+        good = {"v" * 3, "v" * 8}
+
+        def worker(i, d):
+            inner = evaluate(ws, vm, vm + "_none", d + "/internal", d + "/data", None)
+
+            def fn():
+                os.environ["DDSVERIF_WORKER"] = str(i)
+                return inner()
+            return fn
+        d0 = os.path.join(tmp, "d0")
+        os.makedirs(d0)
+        results, steps, problems = run_schedule([worker(0, d0), worker(1, d0)], d0, [], lambda: None)
+        t1 = run_schedule.last_traces[1]
+        shutil.rmtree(d0, ignore_errors=True)
+        cand = [a for a, opn in enumerate(t1) if opn == "open" and a + 1 < len(t1) and t1[a + 1] == "write1"][:2]
+        for a in cand:
+            d = os.path.join(tmp, "run")
+            os.makedirs(d)
+            kids = [Child(worker(0, d), d), Child(worker(1, d), d)]
+            for _ in range(a):
+                if not kids[1].grant():
+                    break
+            while kids[0].grant():
+                pass
+            bad = None
+            nobs = 0
+            if kids[0].result is None or kids[0].result[0] != "ok" or kids[0].result[1] not in good:
+                bad = "the early keeper returned %r" % (kids[0].result,)
+            while bad is None:
+                kids[1].wait_request()
+                nobs += 1
+                ob1 = in_child(loader(d + "/internal", d + "/data", ["/w/p"], times=1))
+                if ob1[0] != "ok" or any(v_ not in good for (_, v_) in ob1[1]):
+                    bad = "after the early keeper returned, load('/w/p') gives %r while the late keeper (whose result has another length) is at operation %d (after %s)" % (
+                        ob1[1], len(kids[1].trace), kids[1].trace[-1] if kids[1].trace else None)
+                if not kids[1].grant():
+                    break
+            while kids[1].grant():
+                pass
+            res.evaluations += 1 + nobs
+            res.count("scenario_keepers_with_results_of_different_length")
+            res.nontrivial("different length %d" % a)
+            if bad:
+                res.violations.append({"what": bad, "input": {"scenario": "two keepers whose results differ in length, late keeper stopped after %d operations" % a,
+                                                                "late_keeper_operations": t1}, "kf": None})
+            shutil.rmtree(d, ignore_errors=True)
+    finally:
+        shutil.rmtree(tmp, ignore_errors=True)
     # long-lived processes taking turns on one store (no preemption needed): A keeps version 1, B keeps version 2 of the same
     # paths, A keeps version 1 again - every process (A, B, a fresh one) must then see version 1 everywhere, whatever A or B
     # remember privately about what they committed (both run with the object cache, as set_store(cache_objects=True) does)
